@@ -196,8 +196,20 @@ pub fn batch_summary(b: BatchResponse<Value>) -> String {
 	let (s, f) = (b.num_successful_calls(), b.num_failed_calls());
 	let n_ok = b.iter().filter(|e| e.is_ok()).count();
 	let into_ok_is_ok = b.clone().into_ok().is_ok();
-	// into_ok() must say Ok exactly when no entry is an error
-	let agrees = into_ok_is_ok == (n_ok == b.len());
+	// into_ok() and ok() must say Ok exactly when no entry is an error, and then hand out every entry, in order;
+	// otherwise they hand out exactly the error entries
+	let by_ref_agrees = match b.ok() {
+		Ok(it) => {
+			let got: Vec<String> = it.map(|v| v.to_string()).collect();
+			n_ok == b.len() && got == b.iter().filter_map(|e| e.as_ref().ok().map(|v| v.to_string())).collect::<Vec<_>>()
+		}
+		Err(it) => n_ok != b.len() && it.count() == b.len() - n_ok,
+	};
+	let by_value_agrees = match b.clone().into_ok() {
+		Ok(it) => it.map(|v| v.to_string()).collect::<Vec<_>>() == b.iter().filter_map(|e| e.as_ref().ok().map(|v| v.to_string())).collect::<Vec<_>>() && n_ok == b.len(),
+		Err(it) => n_ok != b.len() && it.count() == b.len() - n_ok,
+	};
+	let agrees = into_ok_is_ok == (n_ok == b.len()) && by_ref_agrees && by_value_agrees;
 	format!("[{}]#s{s}f{f}o{}", items.join(","), agrees as u8)
 }
 
